@@ -722,6 +722,26 @@ impl Prop for C04 {
                                     PathAttribute::Invalid(..) | PathAttribute::Unimplemented(_) => "-".to_string(),
                                     _ => catch(|| hex(&compose(&pa))),
                                 };
+                                // the same attribute as the FIRST attribute of an accepted UPDATE, read back through
+                                // `UpdateMessage::path_attributes()`: decoding must not depend on the route by which the
+                                // octets reach `WireformatPathAttribute::parse` (round-7 seed: the attribute iterator of an
+                                // accepted message skipped `validate`, so a malformed value came out typed there only)
+                                let one = &bs[..bs.len() - rest];
+                                if one.len() <= 4000 {
+                                    let m = update_with_attrs(one);
+                                    let sc = if four { SessionConfig::modern() } else { SessionConfig::legacy() };
+                                    if let Ok(u) = UpdateMessage::from_octets(&m[..], &sc) {
+                                        let via = match u.path_attributes() {
+                                            Ok(mut it) => match it.next() {
+                                                Some(Ok(wf)) => match wf.to_owned() { Ok(p2) => show_rc(&p2), Err(_) => "owned-err".to_string() },
+                                                Some(Err(_)) => "item-err".to_string(),
+                                                None => "none".to_string(),
+                                            },
+                                            Err(_) => "iter-err".to_string(),
+                                        };
+                                        if via != show_rc(&pa) { return format!("VIA-UPDATE-DIFFERS alone={} in-update={}", show_rc(&pa), via); }
+                                    }
+                                }
                                 format!("ok {} rest={} re={}", show_rc(&pa), rest, re)
                             }
                         }
@@ -780,6 +800,7 @@ impl Prop for C04 {
                 let Some((fl, tc, v, rest)) = ref_split(&bs) else {
                     return if reply == "err" { Ok(()) } else { Err("an attribute cut short was accepted".into()) };
                 };
+                if reply.starts_with("VIA-UPDATE-DIFFERS") { return Err(format!("the attribute decodes differently inside an accepted UPDATE: {}", reply)); }
                 if !reply.starts_with("ok ") { return Err(format!("a complete attribute gave `{}`", reply)); }
                 if field(reply, "rest=") != Some(rest.len().to_string().as_str()) { return Err("wrong number of bytes consumed".into()); }
                 let got = reply.split(' ').nth(1).unwrap_or("");
